@@ -151,6 +151,21 @@ theorem C21_no_change_idem (t r : PT α) (h : flatDiff t = true) (hr : noChange 
     noChange r = .ok r ∧ unknownChange r = unknownChange t :=
   ⟨(C21_retag_idem t r .no .no h hr).2, (C21_retag_idem t r .no .unknown h hr).1⟩
 
+/-- The reverse round trip: after `no_change` / `unknown_change` the result is exactly
+    `tree_diff(tree_primal(r), tree_tangent(r))` — the primal / tangent pair loses nothing. -/
+theorem C21_diff_of_primal_tangent (c : Change) (t r : PT α) (h : flatDiff t = true)
+    (hr : retag c t = .ok r) : treeDiff (treePrimal r) (treeTangent r) = .ok r := by
+  rw [retag_eq] at hr
+  simp only [Except.ok.injEq] at hr
+  subst hr
+  have hp := plain_noDiff _ (plain_treePrimal t h)
+  rw [treePrimal_wrap c _ hp, treeTangent_wrap c _ hp]
+  exact treeDiff_const c _
+
+example : treeDiff (treePrimal (mkTuple [diff (leaf (1 : Int)) (tan .no), mkNone]))
+    (treeTangent (mkTuple [diff (leaf (1 : Int)) (tan .no), mkNone]))
+    = .ok (mkTuple [diff (leaf 1) (tan .no), mkNone]) := by rfl
+
 example : noChange (mkTuple [leaf (1 : Int), diff (mkTuple [leaf 2, leaf 3]) (tan .unknown), mkNone])
     = .ok (mkTuple [diff (leaf 1) (tan .no), mkTuple [diff (leaf 2) (tan .no), diff (leaf 3) (tan .no)], mkNone]) := by rfl
 
